@@ -79,3 +79,120 @@ def dedupe(behs):
             seen.add(k)
             out.append(b)
     return out
+
+
+def small_batch(fields=("a", "b"), ndocs=3):
+    batch = []
+    for d in range(ndocs):
+        doc = [id_inst(d)]
+        for k, f in enumerate(fields):
+            terms = [{"term": B("t%d" % ((d + k) % 2)), "freq": 1, "locs": []},
+                     {"term": B("x"), "freq": 2, "locs": [{"field": "", "pos": 1, "start": 0, "end": 1}]}]
+            doc.append({"name": f, "len": 3, "stored": True, "value": B("v%d" % d), "dv": k == 0, "terms": terms})
+        batch.append(doc)
+    return batch
+
+
+def lift_fst(beh, idx):
+    """FstCache behaviour -> two goroutines calling Dictionary on a file-backed segment, released in the
+    model's order; the model's storage failure closes the file at the same point of the schedule."""
+    procs = sorted({h["p"] for h in beh["hist"] if h["p"] != 0})
+    groups = []
+    for p in procs:
+        ops = []
+        for h in beh["hist"]:
+            if h["p"] == p and h["at"] == "call":
+                ops.append({"op": "dict", "seg": 2, "field": h["f"]})
+                ops.append({"op": "contains", "seg": 2, "field": h["f"], "term": B("x")})
+        groups.append(ops)
+    sched, at_gate = [], {p: False for p in procs}
+    for h in beh["hist"]:
+        p = h["p"]
+        if h["at"] == "storage-fails":
+            sched.append(0)
+        elif h["at"] == "fst:load":
+            at_gate[p] = True
+        elif h["at"] == "done":
+            if at_gate[p]:
+                sched.append(procs.index(p) + 1)
+                at_gate[p] = False
+            sched.append(procs.index(p) + 1)      # the contains() that follows each dictionary call
+        elif h["at"] == "call":
+            if at_gate[p]:
+                sched.append(procs.index(p) + 1)
+                at_gate[p] = False
+            sched.append(procs.index(p) + 1)
+    ops = [{"op": "watchdog", "watchdog_ms": 2000},
+           {"op": "build", "seg": 1, "batch": 0, "mode": 0},
+           {"op": "persist", "seg": 1, "file": 1},
+           {"op": "load", "file": 1, "seg": 2, "backing": "file"},
+           {"op": "sched", "seg": 2, "groups": groups, "schedule": sched}]
+    for f in ("a", "b", "zz", "_id"):
+        ops += [{"op": "dict", "seg": 2, "field": f}, {"op": "dict", "seg": 2, "field": f},
+                {"op": "pl_open", "seg": 2, "field": f, "term": B("x"), "pl": 10}]
+    tags = ["fst"]
+    if beh.get("failed"):
+        tags.append("fst_failed")
+    return {"name": "E2-fst-%d" % idx, "norm": "code", "universe": ["_id", "a", "b", "zz"],
+            "batches": [small_batch()], "ops": ops, "tags": tags}
+
+
+def lift_stored(beh, idx):
+    """StoredRead behaviour -> goroutines visiting stored fields of documents in two 128-document blocks,
+    released at the gate points in the model's order, with the model's nested visits."""
+    ndocs = 131
+    batch = []
+    for d in range(ndocs):
+        if d == ndocs - 1:
+            batch.append([{"name": "_id", "len": 1, "stored": True, "value": [], "dv": False,
+                           "terms": [{"term": B("d%d" % d), "freq": 1, "locs": []}]},
+                          {"name": "a", "len": 0, "stored": True, "value": [], "dv": False, "terms": []}])
+            continue
+        batch.append([id_inst(d),
+                      {"name": "a", "len": 1, "stored": True, "value": B("value-%d" % d), "dv": False,
+                       "terms": [{"term": B("t%d" % (d % 5)), "freq": 1, "locs": []}]}])
+
+    def docno(blk, last):
+        return {(1, False): 3, (1, True): 127, (2, False): 128, (2, True): ndocs - 1}[(blk, bool(last))]
+
+    procs = sorted({h["p"] for h in beh["hist"]})
+    seg = 2 if idx % 2 else 1
+    groups = []
+    for p in procs:
+        tops, stack = [], []
+        for h in beh["hist"]:
+            if h["p"] != p:
+                continue
+            if h["at"] == "decomp":
+                node = {"op": "stored", "seg": seg, "n": docno(h["blk"], h["last"]), "_cbs": 0}
+                if stack:
+                    node["at_cb"] = stack[-1]["_cbs"]
+                    stack[-1].setdefault("nest", []).append(node)
+                else:
+                    tops.append(node)
+                stack.append(node)
+            elif h["at"] == "cb":
+                stack[-1]["_cbs"] += 1
+            elif h["at"] == "ret":
+                stack.pop()
+
+        def clean(n):
+            n.pop("_cbs", None)
+            for c in n.get("nest", []):
+                clean(c)
+            return n
+        groups.append([clean(t) for t in tops])
+    sched = [procs.index(h["p"]) + 1 for h in beh["hist"]]
+    ops = [{"op": "build", "seg": 1, "batch": 0, "mode": 0}]
+    if seg == 2:
+        ops += [{"op": "persist", "seg": 1, "file": 1},
+                {"op": "load", "file": 1, "seg": 2, "backing": "file" if idx % 4 == 1 else "mem"}]
+    ops.append({"op": "sched", "groups": groups, "schedule": sched})
+    tags = ["stored_sched"]
+    if any("nest" in g for grp in groups for g in grp):
+        tags.append("nested")
+    blocks = {h["blk"] for h in beh["hist"]}
+    if len(blocks) > 1:
+        tags.append("twoblocks")
+    return {"name": "E2-stored-%d" % idx, "norm": "code", "universe": ["_id", "a"], "batches": [batch],
+            "ops": ops, "tags": tags}
